@@ -6,22 +6,11 @@ pub open spec fn otot(s: Seq<DiffOp>) -> int { osum(s, s.len() as int) }
 pub open spec fn ntot(s: Seq<DiffOp>) -> int { nsum(s, s.len() as int) }
 pub open spec fn etot(s: Seq<DiffOp>) -> int { esum(s, s.len() as int) }
 
-/// carried indices (old_index of an Insert, new_index of a Delete) have room for the equal items around them:
-/// at least the number of equal items before the op, and the equal items from the op on still fit below usize::MAX.
-/// Implied by exactness (lemma_exact_carried_ok) and by within-run validity; preserved by every compaction step.
-/// It is what makes `shift_left` / `shift_right` on a carried index safe.
+/// `carried_ok` (opspec.rs) for a window w of a list: e0 equal items before the window, et in the whole list
 pub open spec fn carried_in(w: Seq<DiffOp>, e0: int, et: int) -> bool {
     forall|i: int| 0 <= i < w.len() ==> match #[trigger] w[i] {
         DiffOp::Insert { old_index, .. } => e0 + esum(w, i) <= old_index && old_index + (et - e0 - esum(w, i)) <= usize::MAX,
         DiffOp::Delete { new_index, .. } => e0 + esum(w, i) <= new_index && new_index + (et - e0 - esum(w, i)) <= usize::MAX,
-        _ => true,
-    }
-}
-
-pub open spec fn carried_ok(ops: Seq<DiffOp>) -> bool {
-    forall|i: int| 0 <= i < ops.len() ==> match #[trigger] ops[i] {
-        DiffOp::Insert { old_index, .. } => esum(ops, i) <= old_index && old_index + (esum(ops, ops.len() as int) - esum(ops, i)) <= usize::MAX,
-        DiffOp::Delete { new_index, .. } => esum(ops, i) <= new_index && new_index + (esum(ops, ops.len() as int) - esum(ops, i)) <= usize::MAX,
         _ => true,
     }
 }
@@ -59,7 +48,7 @@ pub proof fn lemma_sum_prefix(a: Seq<DiffOp>, b: Seq<DiffOp>, i: int)
 
 /// sums over a shifted copy: b[d + k] == a[c + k]
 pub proof fn lemma_sum_shift(a: Seq<DiffOp>, c: int, b: Seq<DiffOp>, d: int, j: int)
-    requires 0 <= c, 0 <= d, 0 <= j, c + j <= a.len(), d + j <= b.len(), forall|k: int| 0 <= k < j ==> a[c + k] == b[d + k],
+    requires 0 <= c, 0 <= d, 0 <= j, c + j <= a.len(), d + j <= b.len(), forall|k: int| c <= k < c + j ==> #[trigger] a[k] == b[k - c + d],
     ensures osum(a, c + j) - osum(a, c) == osum(b, d + j) - osum(b, d),
         nsum(a, c + j) - nsum(a, c) == nsum(b, d + j) - nsum(b, d),
         esum(a, c + j) - esum(a, c) == esum(b, d + j) - esum(b, d),
@@ -67,7 +56,7 @@ pub proof fn lemma_sum_shift(a: Seq<DiffOp>, c: int, b: Seq<DiffOp>, d: int, j: 
 {
     if j > 0 {
         lemma_sum_shift(a, c, b, d, j - 1);
-        assert(a[c + (j - 1)] == b[d + (j - 1)]);
+        assert(a[c + j - 1] == b[(c + j - 1) - c + d]);
     }
 }
 
@@ -109,7 +98,7 @@ pub proof fn lemma_cat3_tot(pre: Seq<DiffOp>, w: Seq<DiffOp>, post: Seq<DiffOp>)
         ntot(cat3(pre, w, post)) == ntot(pre) + ntot(w) + ntot(post),
         etot(cat3(pre, w, post)) == etot(pre) + etot(w) + etot(post),
 {
-    lemma_cat3_at(pre, w, post, pre.len() + w.len() + post.len());
+    lemma_cat3_at(pre, w, post, (pre.len() + w.len() + post.len()) as int);
 }
 
 /// sums of short explicit lists
@@ -271,7 +260,7 @@ pub open spec fn step_ok<Old: Index<usize> + ?Sized, New: Index<usize> + ?Sized>
 }
 
 pub open spec fn win_carried(w1: Seq<DiffOp>, w2: Seq<DiffOp>) -> bool {
-    etot(w1) == etot(w2) && forall|e0: int, et: int| #[trigger] carried_in(w1, e0, et) ==> carried_in(w2, e0, et)
+    etot(w1) == etot(w2) && forall|e0: int, et: int| 0 <= e0 && #[trigger] carried_in(w1, e0, et) ==> carried_in(w2, e0, et)
 }
 
 pub proof fn lemma_step_window<Old: Index<usize> + ?Sized, New: Index<usize> + ?Sized>(old: &Old, new: &New, pre: Seq<DiffOp>, w1: Seq<DiffOp>, w2: Seq<DiffOp>, post: Seq<DiffOp>, exact: bool)
@@ -315,6 +304,7 @@ pub proof fn lemma_carried_window(pre: Seq<DiffOp>, w1: Seq<DiffOp>, w2: Seq<Dif
     lemma_cat3_tot(pre, w1, post);
     lemma_cat3_tot(pre, w2, post);
     let et = etot(s1); let e0 = etot(pre);
+    lemma_sum_nonneg(pre, pre.len() as int);
     if carried_ok(s1) {
         assert(carried_in(w1, e0, et)) by {
             assert forall|j: int| 0 <= j < w1.len() implies match #[trigger] w1[j] {
@@ -360,6 +350,130 @@ pub proof fn lemma_exact_carried_ok<Old: Index<usize> + ?Sized, New: Index<usize
     } by {
         lemma_op_facts(old, new, ops, i, b, true);
         lemma_sum_mono(ops, i, i + 1);
+    }
+}
+
+
+// ---------------------------------------------------------------------------------------------
+// the rewrites of the compaction (src/algorithms/compact.rs) as functions on op lists
+// ---------------------------------------------------------------------------------------------
+/// two adjacent Inserts / Deletes become one: `ops[p - 1].grow_right(len of ops[p]); ops.remove(p)`
+pub open spec fn merged(a: DiffOp, c: DiffOp) -> DiffOp {
+    adjusted(a, 0, false, if c is Insert { op_new_len(c) } else { op_old_len(c) }, false)
+}
+
+pub open spec fn merge_result(s1: Seq<DiffOp>, p: int) -> Seq<DiffOp> { s1.update(p - 1, merged(s1[p - 1], s1[p])).remove(p) }
+
+/// the Equal that `shift_diff_ops_up` inserts behind the Insert
+pub open spec fn up_new_equal(e: DiffOp, i: DiffOp, s: usize) -> DiffOp {
+    DiffOp::Equal { old_index: (op_old_end(e) - s) as usize, new_index: (op_new_end(i) - s) as usize, len: s }
+}
+
+/// shift the Insert at p up by s items of the Equal at p - 1
+pub open spec fn shift_up_result(s1: Seq<DiffOp>, p: int, s: usize) -> Seq<DiffOp> {
+    let grew = p + 1 < s1.len() && s1[p + 1] is Equal;
+    let m1 = if grew { s1.update(p + 1, adjusted(s1[p + 1], s, true, s, false)) } else { s1.insert(p + 1, up_new_equal(s1[p - 1], s1[p], s)) };
+    let m2 = m1.update(p, adjusted(s1[p], s, true, 0, false)).update(p - 1, adjusted(s1[p - 1], 0, false, s, true));
+    if op_old_len(s1[p - 1]) == s { m2.remove(p - 1) } else { m2 }
+}
+
+/// the Equal that `shift_diff_ops_down` inserts before the Insert
+pub open spec fn down_new_equal(i: DiffOp, f: DiffOp, s: usize) -> DiffOp {
+    DiffOp::Equal { old_index: op_old_index(f), new_index: op_new_index(i), len: s }
+}
+
+/// shift the Insert at p down by s items of the Equal at p + 1
+pub open spec fn shift_down_result(s1: Seq<DiffOp>, p: int, s: usize) -> Seq<DiffOp> {
+    let grew = p >= 1 && s1[p - 1] is Equal;
+    let m1 = if grew { s1.update(p - 1, adjusted(s1[p - 1], 0, false, s, false)) } else { s1.insert(p, down_new_equal(s1[p], s1[p + 1], s)) };
+    let q = if grew { p } else { p + 1 };
+    let m2 = m1.update(q, adjusted(s1[p], s, false, 0, false)).update(q + 1, adjusted(s1[p + 1], s, false, s, true));
+    if op_old_len(s1[p + 1]) == s { m2.remove(q + 1) } else { m2 }
+}
+
+/// x and y are a Delete / an Insert with the same cursor-side index and the same length (the carried index may differ)
+pub open spec fn same_cursor_side(x: DiffOp, y: DiffOp) -> bool {
+    match (x, y) {
+        (DiffOp::Insert { new_index: n1, new_len: l1, .. }, DiffOp::Insert { new_index: n2, new_len: l2, .. }) => n1 == n2 && l1 == l2,
+        (DiffOp::Delete { old_index: o1, old_len: l1, .. }, DiffOp::Delete { old_index: o2, old_len: l2, .. }) => o1 == o2 && l1 == l2,
+        _ => false,
+    }
+}
+
+/// ops p - 1 and p (a Delete and an Insert) have changed places; what they carry is not specified
+pub open spec fn swapped(s1: Seq<DiffOp>, s2: Seq<DiffOp>, p: int) -> bool {
+    &&& 1 <= p < s1.len() && s2.len() == s1.len()
+    &&& (s1[p - 1] is Insert && s1[p] is Delete) || (s1[p - 1] is Delete && s1[p] is Insert)
+    &&& forall|i: int| 0 <= i < s1.len() && i != p - 1 && i != p ==> s2[i] == s1[i]
+    &&& same_cursor_side(s2[p - 1], s1[p]) && same_cursor_side(s2[p], s1[p - 1])
+}
+
+/// ... they carry what they carried before (`ops.swap`)
+pub open spec fn swap_plain(s1: Seq<DiffOp>, s2: Seq<DiffOp>, p: int) -> bool { s2[p - 1] == s1[p] && s2[p] == s1[p - 1] }
+
+/// ... they carry the cursor (the `cfg(similar_verif)` block after `ops.swap`)
+pub open spec fn swap_fixed(s2: Seq<DiffOp>, p: int) -> bool {
+    match (s2[p - 1], s2[p]) {
+        (DiffOp::Insert { old_index: io, new_index: ni, new_len: nl }, DiffOp::Delete { old_index: oi, old_len: ol, new_index: dn }) => io == oi && dn == ni + nl,
+        (DiffOp::Delete { old_index: oi, old_len: ol, new_index: dn }, DiffOp::Insert { old_index: io, new_index: ni, new_len: nl }) => dn == ni && io == oi + ol,
+        _ => false,
+    }
+}
+
+// ---------------------------------------------------------------------------------------------
+// window lemmas: the rewrite of a window of two or three ops keeps every box of the window
+// ---------------------------------------------------------------------------------------------
+pub proof fn lemma_win_merge<Old: Index<usize> + ?Sized, New: Index<usize> + ?Sized>(old: &Old, new: &New, a: DiffOp, c: DiffOp, exact: bool)
+  where New::Output: PartialEq<Old::Output>
+    requires (a is Insert && c is Insert && op_new_len(a) + op_new_len(c) <= usize::MAX) || (a is Delete && c is Delete && op_old_len(a) + op_old_len(c) <= usize::MAX),
+    ensures win_ok(old, new, seq![a, c], seq![merged(a, c)], exact), win_carried(seq![a, c], seq![merged(a, c)]),
+{
+    let w1 = seq![a, c]; let m = merged(a, c); let w2 = seq![m];
+    lemma_sums2(a, c); lemma_sums1(m);
+    assert forall|wb: OBox| #[trigger] ops_full(old, new, w1, wb, exact) implies ops_full(old, new, w2, wb, exact) by {
+        assert(op_ok(old, new, w1, 0, wb, exact)); assert(op_ok(old, new, w1, 1, wb, exact));
+        assert(w1[0] == a && w1[1] == c);
+        assert forall|j: int| 0 <= j < w2.len() implies #[trigger] op_ok(old, new, w2, j, wb, exact) by { assert(w2[0] == m); }
+        assert forall|j: int| 0 <= j < w2.len() implies olen(#[trigger] w2[j]) + nlen(w2[j]) > 0 by { assert(w2[0] == m); assert(olen(w1[0]) + nlen(w1[0]) > 0); }
+    }
+    assert forall|e0: int, et: int| 0 <= e0 && #[trigger] carried_in(w1, e0, et) implies carried_in(w2, e0, et) by {
+        assert(w1[0] == a);
+        assert forall|j: int| 0 <= j < w2.len() implies match #[trigger] w2[j] {
+            DiffOp::Insert { old_index, .. } => e0 + esum(w2, j) <= old_index && old_index + (et - e0 - esum(w2, j)) <= usize::MAX,
+            DiffOp::Delete { new_index, .. } => e0 + esum(w2, j) <= new_index && new_index + (et - e0 - esum(w2, j)) <= usize::MAX,
+            _ => true,
+        } by { assert(w2[0] == m); }
+    }
+}
+
+/// Delete and Insert change places.  Lax: whatever they carry afterwards.  Exact: if they carry the cursor afterwards.
+pub proof fn lemma_win_swap<Old: Index<usize> + ?Sized, New: Index<usize> + ?Sized>(old: &Old, new: &New, a: DiffOp, c: DiffOp, c2: DiffOp, a2: DiffOp)
+  where New::Output: PartialEq<Old::Output>
+    requires (a is Insert && c is Delete) || (a is Delete && c is Insert), same_cursor_side(c2, c), same_cursor_side(a2, a),
+    ensures win_ok(old, new, seq![a, c], seq![c2, a2], false),
+        swap_fixed(seq![c2, a2], 1) ==> win_ok(old, new, seq![a, c], seq![c2, a2], true),
+        etot(seq![a, c]) == etot(seq![c2, a2]),
+{
+    let w1 = seq![a, c]; let w2 = seq![c2, a2];
+    lemma_sums2(a, c); lemma_sums2(c2, a2);
+    assert(w1[0] == a && w1[1] == c && w2[0] == c2 && w2[1] == a2);
+    assert forall|wb: OBox| #[trigger] ops_full(old, new, w1, wb, false) implies ops_full(old, new, w2, wb, false) by {
+        assert(op_ok(old, new, w1, 0, wb, false)); assert(op_ok(old, new, w1, 1, wb, false));
+        assert forall|j: int| 0 <= j < w2.len() implies #[trigger] op_ok(old, new, w2, j, wb, false) by { if j == 0 {} else { assert(j == 1); } }
+        assert forall|j: int| 0 <= j < w2.len() implies olen(#[trigger] w2[j]) + nlen(w2[j]) > 0 by {
+            assert(olen(w1[0]) + nlen(w1[0]) > 0); assert(olen(w1[1]) + nlen(w1[1]) > 0);
+            if j == 0 {} else { assert(j == 1); }
+        }
+    }
+    if swap_fixed(w2, 1) {
+        assert forall|wb: OBox| #[trigger] ops_full(old, new, w1, wb, true) implies ops_full(old, new, w2, wb, true) by {
+            assert(op_ok(old, new, w1, 0, wb, true)); assert(op_ok(old, new, w1, 1, wb, true));
+            assert forall|j: int| 0 <= j < w2.len() implies #[trigger] op_ok(old, new, w2, j, wb, true) by { if j == 0 {} else { assert(j == 1); } }
+            assert forall|j: int| 0 <= j < w2.len() implies olen(#[trigger] w2[j]) + nlen(w2[j]) > 0 by {
+                assert(olen(w1[0]) + nlen(w1[0]) > 0); assert(olen(w1[1]) + nlen(w1[1]) > 0);
+                if j == 0 {} else { assert(j == 1); }
+            }
+        }
     }
 }
 
